@@ -363,4 +363,98 @@ theorem scale_identity_rgba (c : Rgba Rat) (h : c.WF) :
   have e := Hsla.new_id (c.toHsla CQuirks.spec) (Rgba.toHsla_wf c) (c.toHsla CQuirks.spec).fmt
   simp [scaleColor, takeOpt, kw, only, cmb, Col.toHsla, e]
 
+/-! ## Lifted to hwba-stored colours
+
+`lighten`/`darken`/`saturate`/`desaturate` convert an hwba-stored colour with `Hwba.toHsla`
+first, and the rgba of an hwba colour IS the rgba of that hsl form, so the cancel laws need no
+extra hypothesis.  `complement`/`adjust-hue` keep an hwba colour in hwba form with the hue stored
+un-normalised (`Hwba::new` does not call `deg_mod`); they are proved under the hypothesis that the
+stored hue is in `[0, 360)` (what `hwb()` with an in-range hue stores). -/
+
+/-- FULL for hwba-stored colours: `darken(lighten(c, a), a)` is `c` when nothing was clamped. -/
+theorem lighten_darken_cancel_unclamped_hwba (w : Hwba Rat) (a : Rat) (h : w.WF) (ha : 0 ≤ a)
+    (hl : (w.toHsla CQuirks.spec).l + a ≤ 1) :
+    (lightenBy CQuirks.spec (lightenBy CQuirks.spec (Col.hwba w) a true) a false).eqv CQuirks.spec
+      (Col.hwba w) = true := by
+  have e := lighten_darken_eq (w.toHsla CQuirks.spec) a (Hwba.toHsla_wf w) ha hl
+  have : lightenBy CQuirks.spec (Col.hwba w) a true
+      = lightenBy CQuirks.spec (Col.hsla (w.toHsla CQuirks.spec)) a true := rfl
+  rw [this, e]
+  exact eqv_spec_of_chan _ _ rfl rfl rfl rfl
+
+/-- FULL for hwba-stored colours: `desaturate(saturate(c, a), a)` is `c` when nothing was clamped. -/
+theorem saturate_desaturate_cancel_unclamped_hwba (w : Hwba Rat) (a : Rat) (h : w.WF) (ha : 0 ≤ a)
+    (hl : (w.toHsla CQuirks.spec).s + a ≤ 1) :
+    (desaturateBy CQuirks.spec (saturateBy CQuirks.spec (Col.hwba w) a) a).eqv CQuirks.spec
+      (Col.hwba w) = true := by
+  have e := saturate_desaturate_eq (w.toHsla CQuirks.spec) a (Hwba.toHsla_wf w) ha hl
+  have : saturateBy CQuirks.spec (Col.hwba w) a
+      = saturateBy CQuirks.spec (Col.hsla (w.toHsla CQuirks.spec)) a := rfl
+  rw [this, e]
+  exact eqv_spec_of_chan _ _ rfl rfl rfl rfl
+
+/-- FULL STATEMENT over every representation: `darken(lighten(c, a), a)` is `c` when nothing was
+clamped (`lightness(c) + a ≤ 100%`), for every well-formed colour. -/
+theorem lighten_darken_cancel_unclamped (c : Col Rat) (a : Rat) (h : c.WF) (ha : 0 ≤ a)
+    (hl : (c.toHsla CQuirks.spec).l + a ≤ 1) :
+    (lightenBy CQuirks.spec (lightenBy CQuirks.spec c a true) a false).eqv CQuirks.spec c = true := by
+  cases c with
+  | rgba r => exact lighten_darken_cancel_unclamped_rgba r a h ha hl
+  | hsla s => exact lighten_darken_cancel_unclamped_partial s a h ha hl
+  | hwba w => exact lighten_darken_cancel_unclamped_hwba w a h ha hl
+
+/-- FULL STATEMENT over every representation: `desaturate(saturate(c, a), a)` is `c` when nothing
+was clamped, for every well-formed colour. -/
+theorem saturate_desaturate_cancel_unclamped (c : Col Rat) (a : Rat) (h : c.WF) (ha : 0 ≤ a)
+    (hl : (c.toHsla CQuirks.spec).s + a ≤ 1) :
+    (desaturateBy CQuirks.spec (saturateBy CQuirks.spec c a) a).eqv CQuirks.spec c = true := by
+  cases c with
+  | rgba r => exact saturate_desaturate_cancel_unclamped_rgba r a h ha hl
+  | hsla s => exact saturate_desaturate_cancel_unclamped_partial s a h ha hl
+  | hwba w => exact saturate_desaturate_cancel_unclamped_hwba w a h ha hl
+
+/-- hwba-stored colours with the hue stored in `[0, 360)`: `complement(complement(c))` is `c`. -/
+theorem complement_invol_hwba (w : Hwba Rat) (h : w.WF) (h0 : 0 ≤ w.h) (h1 : w.h < 360) :
+    (((Col.hwba w).rotateHue CQuirks.spec 180).rotateHue CQuirks.spec 180).eqv CQuirks.spec (Col.hwba w)
+      = true := by
+  have e1 : (Col.hwba w).rotateHue CQuirks.spec 180 = Col.hwba { w with h := w.h + 180 } := by
+    show Col.hwba (Hwba.new CQuirks.spec (w.h + 180) w.w w.b w.a) = _
+    rw [Hwba.new_id w h]
+  have e2 : (Col.hwba ({ w with h := w.h + 180 } : Hwba Rat)).rotateHue CQuirks.spec 180
+      = Col.hwba { w with h := w.h + 180 + 180 } := by
+    show Col.hwba (Hwba.new CQuirks.spec (w.h + 180 + 180) w.w w.b w.a) = _
+    rw [Hwba.new_id w h]
+  rw [e1, e2]
+  have hd : degMod CQuirks.spec (w.h + 180 + 180) = degMod CQuirks.spec w.h := by
+    have : w.h + 180 + 180 = w.h + 360 := by ring
+    rw [this, degMod_add_360 w.h h0 h1, degMod_id _ _ h0 h1]
+  have hc := Hwba.toHsla_hue_congr w (w.h + 180 + 180) w.h hd
+  have key : (Col.hwba ({ w with h := w.h + 180 + 180 } : Hwba Rat)).toRgba CQuirks.spec
+      = (Col.hwba w).toRgba CQuirks.spec := by
+    show (({ w with h := w.h + 180 + 180 } : Hwba Rat).toHsla CQuirks.spec).toRgba
+      = (({ w with h := w.h } : Hwba Rat).toHsla CQuirks.spec).toRgba
+    rw [hc]
+  exact eqv_spec_of_chan _ _ (by rw [key]) (by rw [key]) (by rw [key]) (by rw [key])
+
+/-- hwba-stored colours with the hue stored in `[0, 360)`: `adjust-hue(c, 360deg)` is `c`. -/
+theorem adjust_hue_360_hwba (w : Hwba Rat) (h : w.WF) (h0 : 0 ≤ w.h) (h1 : w.h < 360) :
+    ((Col.hwba w).rotateHue CQuirks.spec 360).eqv CQuirks.spec (Col.hwba w) = true := by
+  have e1 : (Col.hwba w).rotateHue CQuirks.spec 360 = Col.hwba { w with h := w.h + 360 } := by
+    show Col.hwba (Hwba.new CQuirks.spec (w.h + 360) w.w w.b w.a) = _
+    rw [Hwba.new_id w h]
+  rw [e1]
+  have hd : degMod CQuirks.spec (w.h + 360) = degMod CQuirks.spec w.h := by
+    rw [degMod_add_360 w.h h0 h1, degMod_id _ _ h0 h1]
+  have hc := Hwba.toHsla_hue_congr w (w.h + 360) w.h hd
+  have key : (Col.hwba ({ w with h := w.h + 360 } : Hwba Rat)).toRgba CQuirks.spec
+      = (Col.hwba w).toRgba CQuirks.spec := by
+    show (({ w with h := w.h + 360 } : Hwba Rat).toHsla CQuirks.spec).toRgba
+      = (({ w with h := w.h } : Hwba Rat).toHsla CQuirks.spec).toRgba
+    rw [hc]
+  exact eqv_spec_of_chan _ _ (by rw [key]) (by rw [key]) (by rw [key]) (by rw [key])
+
+/- NOT PROVED: `complement_invol` / `adjust_hue_360` for hwba-stored colours whose stored hue is
+outside `[0, 360)` (e.g. `hwb(400 …)`, or the result of an earlier `adjust-hue`): needs
+`degMod (x + 360) = degMod x` for every `x` (periodicity of the truncated remainder across zero). -/
+
 end C32
